@@ -3,6 +3,7 @@
 #pragma once
 
 #include "vtrace.hpp"
+#include <tao/pegtl/internal/cstring_reader.hpp>
 
 #include <cstdio>
 #include <fstream>
@@ -138,6 +139,11 @@ namespace vt
          run_cov_case< Root, fam3, tc_full_uw, TE, LFCRLF >( CaseCfg(), s );
          run_cov_case< Root, fam3, tc_hid, TL, LFCRLF >( CaseCfg(), s );
          run_cov_case< Root, fam1, tc_full, TE, LFCRLF >( CaseCfg(), s );
+         // control_action: the action-side hooks around every invocation, whatever the control's visibility and the apply mode
+         run_memory_case< Root, fam8, tc_hid_uw, AA, MR, TE, LFCRLF >( CaseCfg(), s );
+         run_memory_case< Root, fam8, tc_full, AN, MO, TL, LFCRLF >( CaseCfg(), s );
+         run_trace_case< Root, fam3, tc_hid_uw, true, TE, LFCRLF >( CaseCfg(), s );
+         run_trace_case< Root, pegtl::nothing, tc_full_uw, false, TL, LFCRLF >( CaseCfg(), s );
       } );
    }
 
@@ -290,6 +296,16 @@ namespace vt
          }
          catch( ... ) {
             input_ctor_failed< Root, Act, Ctl, A, M >( c, 6, 0, s );
+         }
+      }
+      if( s.find( '\0' ) == std::string::npos ) {
+         try {
+            // buffer_input over the reader for NUL-terminated strings
+            pegtl::buffer_input< pegtl::internal::cstring_reader > in( "src", s.size() + 16, s.c_str() );
+            run_input_case< Root, Act, Ctl, A, M >( c, 9, s, in );
+         }
+         catch( ... ) {
+            input_ctor_failed< Root, Act, Ctl, A, M >( c, 9, 0, s );
          }
       }
       try {
